@@ -8,9 +8,12 @@ package agent
 import (
 	"context"
 	"fmt"
+	"io"
 	"net"
 	"os"
 	"path/filepath"
+	"sync"
+	"sync/atomic"
 	"testing"
 	"time"
 
@@ -120,6 +123,92 @@ func TestVerif_C02_Mesh(t *testing.T) {
 				cancel()
 			}
 			tap.close()
+		}
+		// Tunnels whose OPEN is delivered to the exit more than once (a relay that duplicates or
+		// replays the open): every connection the exit makes for them talks first (banner server),
+		// so the exit seals data for the original and for each duplicate. Whatever keys the exit
+		// derives for the copies, no (key, nonce) pair may repeat.
+		{
+			bl, err := net.Listen("tcp", "0.0.0.0:0")
+			if err == nil {
+				bport := bl.Addr().(*net.TCPAddr).Port
+				var bconns atomic.Int64
+				go func() {
+					for {
+						c, err := bl.Accept()
+						if err != nil {
+							return
+						}
+						n := bconns.Add(1)
+						go func(c net.Conn, n int64) {
+							defer c.Close()
+							line := []byte(fmt.Sprintf("banner of connection %d ........................................\n", n))
+							for i := 0; i < 40; i++ {
+								if _, err := c.Write(line); err != nil {
+									return
+								}
+								time.Sleep(2 * time.Millisecond)
+							}
+						}(c, n)
+					}
+				}()
+				tap := mkInstallTap()
+				var dmu sync.Mutex
+				copies := map[string]int{}
+				tap.mu.Lock()
+				tap.onPayload = func(ev *mkFrameEv, payload []byte) {
+					if ev.Write || ev.Local != exit.ID() || (ev.Type != protocol.FrameStreamOpen && ev.Type != protocol.FrameUDPOpen) {
+						return
+					}
+					k := fmt.Sprintf("%d/%d/%x", ev.Type, ev.StreamID, payload[:min(len(payload), 48)])
+					dmu.Lock()
+					copies[k]++
+					again := copies[k] <= 2 // the original and one copy each trigger one more delivery: 3 in total
+					dmu.Unlock()
+					if !again {
+						return
+					}
+					f := &protocol.Frame{Type: ev.Type, StreamID: ev.StreamID, Payload: append([]byte(nil), payload...)}
+					from := ev.Remote
+					go func() {
+						time.Sleep(15 * time.Millisecond)
+						if n, ok := m.byID[from]; ok {
+							n.a.peerMgr.SendToPeer(exit.ID(), f)
+						}
+					}()
+				}
+				tap.mu.Unlock()
+				for k := 0; k < rng.Range(2, 4); k++ {
+					ctx, cancel := context.WithTimeout(context.Background(), 10*time.Second)
+					conn, err := ing.DialContext(ctx, "tcp", fmt.Sprintf("127.1.7.%d:%d", 1+k, bport))
+					cancel()
+					if err != nil {
+						continue
+					}
+					conn.SetDeadline(time.Now().Add(3 * time.Second))
+					io.Copy(io.Discard, conn)
+					conn.Close()
+					r.Add("mesh_tunnels_with_duplicated_open", 1)
+				}
+				for k := 0; k < 2; k++ {
+					ctx, cancel := context.WithTimeout(context.Background(), 10*time.Second)
+					sid, err := ing.CreateUDPAssociation(ctx, &net.UDPAddr{IP: net.IPv4(127, 0, 0, 1), Port: 5100 + k})
+					if err == nil {
+						for d := 0; d < 8; d++ {
+							ip := []byte{127, 1, 6, byte(1 + k)}
+							ing.RelayUDPDatagram(sid, &net.UDPAddr{IP: net.IP(ip), Port: echo.port}, uint16(echo.port), protocol.AddrTypeIPv4, ip, rng.Bytes(1+rng.Intn(300)))
+							time.Sleep(10 * time.Millisecond)
+						}
+						ing.CloseUDPAssociation(sid)
+						r.Add("mesh_udp_associations_with_duplicated_open", 1)
+					}
+					cancel()
+				}
+				time.Sleep(200 * time.Millisecond)
+				tap.close()
+				bl.Close()
+				r.Add("mesh_exit_connections_for_duplicated_opens", int(bconns.Load()))
+			}
 		}
 		ct.mu.Lock()
 		seals, keys := ct.nSeals, map[[8]byte]bool{}
